@@ -112,9 +112,14 @@ impl Workspace {
   /// Removes a definition from workspace, deletes all model evaluators,
   /// switches a workspace to state `STASHING`.
   pub fn remove(&mut self, namespace: &str, name: &str) {
-    self.definitions_by_namespace.remove(namespace);
-    self.definitions_by_name.remove(name);
-    self.definitions.retain(|d| d.namespace() != namespace && d.name() != name);
+    // only the definitions stored under this namespace AND having this name are removed,
+    // so that no index keeps a reservation for definitions that are no longer stored
+    let stored = matches!(self.definitions_by_namespace.get(namespace), Some(definitions) if definitions.name() == name);
+    if stored {
+      self.definitions_by_namespace.remove(namespace);
+      self.definitions_by_name.remove(name);
+      self.definitions.retain(|d| d.namespace() != namespace);
+    }
     self.clear_model_evaluators();
   }
   /// Replaces a definition in workspace, deletes all model evaluators,
